@@ -93,7 +93,7 @@ def gen_table(rng):
         else:
             content = None
         nodes.append({"name": name, "host": rng.choice(["h1", "h1", "h2", "H1", "h1.example.org"]), "active": rng.random() < 0.8, "marker": mk, "content": content,
-                      "init_req": rng.random() < 0.5})
+                      "init_req": rng.random() < 0.5, "init_done": rng.random() < 0.35})
     return {"host": "h1", "nodes": nodes}
 
 
@@ -128,6 +128,10 @@ def run_table(ctx, base, table):
                 (root / "ALPENHORN_NODE").mkdir()
             elif n["content"] is not None:
                 daemon._real["builtins.open"](root / "ALPENHORN_NODE", "w", encoding="utf-8", newline="").write(n["content"])
+        for n in table["nodes"]:
+            if n["init_req"] and n.get("init_done"):
+                # the request was served long ago (say, before the storage behind the node was swapped): nothing is pending
+                w.ArchiveFileImportRequest.update(completed=True).where(w.ArchiveFileImportRequest.node == sim.nodes[n["name"]], w.ArchiveFileImportRequest.path == "ALPENHORN_NODE").execute()
         before = {n["name"]: read_marker(sim.nodes[n["name"]].root) for n in table["nodes"]}
         trees0 = sim.trees()
         res = sim.iterate(table["host"])
@@ -139,7 +143,7 @@ def run_table(ctx, base, table):
             managed.append(c.has_file != "M")
             after.append(read_marker(sim.nodes[n["name"]].root))
             r = w.ArchiveFileImportRequest.get_or_none(node=sim.nodes[n["name"]], path="ALPENHORN_NODE")
-            done.append(bool(r.completed) if r is not None else False)
+            done.append(bool(r.completed) and not n.get("init_done") if r is not None else False)  # completed by this iteration
         # the statement, directly
         trees1 = sim.trees()
         for n, m, b, a in zip(table["nodes"], managed, before.values(), after):
@@ -147,11 +151,11 @@ def run_table(ctx, base, table):
             ok_marker = b[0] == "line" and b[1].rstrip() == n["name"]
             if m and not (local and ok_marker):
                 ctx.fail("C07:foreign-node", f"node {n['name']} (host {n['host']}, active={n['active']}, marker {b}) was verified by the daemon of {table['host']}", {"family": "table", "table": table})
-            if a != b and not (local and n["init_req"] and b[0] == "absent"):
+            if a != b and not (local and n["init_req"] and not n.get("init_done") and b[0] == "absent"):
                 ctx.fail("C07:marker-overwritten", f"marker of node {n['name']} changed from {b} to {a} (local={local}, init requested={n['init_req']})", {"family": "table", "table": table})
-            if not (local and ok_marker) and not (local and n["init_req"] and b[0] == "absent") and trees0[n["name"]] != trees1[n["name"]]:
+            if not (local and ok_marker) and not (local and n["init_req"] and not n.get("init_done") and b[0] == "absent") and trees0[n["name"]] != trees1[n["name"]]:
                 ctx.fail("C07:foreign-node", f"the tree of node {n['name']} (not managed by {table['host']}) changed", {"family": "table", "table": table})
-        term = ("(CIter " + cs(table["host"]) + " " + clist([ctup(f"(ND {cs(n['name'])} {cs(n['host'])} {cbool(n['active'])} {cmarker(before[n['name']])})", cbool(n["init_req"])) for n in table["nodes"]], "(node * bool)")
+        term = ("(CIter " + cs(table["host"]) + " " + clist([ctup(f"(ND {cs(n['name'])} {cs(n['host'])} {cbool(n['active'])} {cmarker(before[n['name']])})", cbool(n["init_req"] and not n.get("init_done"))) for n in table["nodes"]], "(node * bool)")
                 + " " + clist([cbool(x) for x in managed], "bool") + " " + clist([cmarker(a) for a in after], "marker") + " " + clist([cbool(x) for x in done], "bool") + ")")
         return term, managed
     finally:
